@@ -452,7 +452,9 @@ def oracle(case, trace, match):
     for mid, con in queued.items():
         n = nacks.get(mid, 0)
         if not con:
-            if n:
+            # (in block mode libcoap reports the request tracked in lg_crcv when nothing else was
+            # reported, which can be a Non-confirmable: the property does not speak about that)
+            if n and "bm" not in case.ops:
                 bad.append("NACK for the Non-confirmable mid %d" % mid)
             continue
         if mid not in sent_tx or not hs_ok["c"]:
@@ -658,6 +660,23 @@ def gen_cases(r, n, tier):
                 c = Case(seed=40 + pos, fd0=pos % 2, ops=ops)
                 c.kind = "stranger-hello"
                 cases.append(c)
+    # 4b. client in COAP_BLOCK_USE_LIBCOAP mode: requests are also tracked in session->lg_crcv
+    # (Observe, NON, ...); queued mixes ending in each kind, every way the handshake can end
+    mixes = [["qc1", "qn2", "qo3"], ["qo1"], ["qo1", "qc2"], ["qn1", "qo2"], ["qo1", "qo2", "qn3"],
+             ["qn1"], ["qc1", "qo2", "qn3", "qc4"], ["qo1", "qn2"]]
+    tails = {"timeout": "a t1000 a t1000 a t2000 a t2000 a t1000 a t1000 a".split(),
+             "release": ["d", "d", "rel"], "plain": ["a"]}
+    for mi, mix in enumerate(mixes):
+        for kw in (dict(skey=b"other-key"), dict(sids=[(b"nobody", b"k")]), {}):
+            for tn, tl in tails.items():
+                for pre in (["bm", "C"], ["bm", "C", "d", "d", "d"]):
+                    c = Case(seed=60 + mi, fd0=mi % 2, ops=pre + mix + tl, **kw)
+                    c.kind = "blockmode/" + tn
+                    cases.append(c)
+        for f in (("c", "hs", 1, -12), ("c", "hs", 2, -16), ("c", "hs", 3, -10), ("s", "hs", 1, -12)):
+            c = Case(seed=60 + mi, force=[f], ops=["bm", "C"] + mix + tails["timeout"])
+            c.kind = "blockmode/force"
+            cases.append(c)
     # 5. forced GnuTLS return codes (fault sequences) at every call position of a handshake
     codes = [0, -28, -52, -32, -12, -19, -15, -16, -49, -112, -24, -43, -21, -87, -10, -328, -110, -319,
              -54, -53, -1, -8, -9, -50, -59, -64, -78, -292, -400]
